@@ -161,7 +161,6 @@ def reqVerdict (text : Bool) (evs : List BodyEv) (obs : List Out) : String :=
   | some .err => verdict [("error-not-clean", obs.getLast? == some .err)]
   | some _ => "ok"
 
-def kindReq : List BodyEv := [.data (str "AAAA")]
 def kindResp : List BodyEv :=
   [.data [0, 0, 0, 0, 1, 7], .trailers [(str "grpc-status", str "0")]]
 
@@ -170,88 +169,243 @@ def firstFail (vs : List String) : String :=
   | some v => v
   | none => "ok"
 
+/-! ### header maps in the line protocol: all entries, stably sorted by name -/
+
+def bytesLe : Bytes → Bytes → Bool
+  | [], _ => true
+  | _ :: _, [] => false
+  | a :: as, b :: bs => if a.toNat < b.toNat then true else if b.toNat < a.toNat then false else bytesLe as bs
+
+def insertByName (p : Pair) : List Pair → List Pair
+  | [] => [p]
+  | q :: r => if bytesLe p.1 q.1 then p :: q :: r else q :: insertByName p r
+
+/-- stable w.r.t. equal names (folding from the right, an earlier entry goes in front) -/
+def sortByName (l : List Pair) : List Pair := l.foldr insertByName []
+
+def renderHeaders (h : List Pair) : List String :=
+  toString h.length :: renderPairs (sortByName h)
+
+/-- `<n> (name value){n} rest…` -/
+def parseHeaders : List String → Option (List Pair × List String)
+  | n :: r => (nat? n).bind (fun n => parsePairs n r)
+  | [] => none
+
+def verTok : Ver → String
+  | .h09 => "h09" | .h10 => "h10" | .h11 => "h11" | .h2 => "h2" | .h3 => "h3"
+
+def parseVer : String → Option Ver
+  | "h09" => some .h09 | "h10" => some .h10 | "h11" => some .h11 | "h2" => some .h2 | "h3" => some .h3
+  | _ => none
+
+def pairsOf (l : List (String × String)) : List Pair := l.map (fun p => (str p.1, str p.2))
+
+/-- what the harness's inner service answers with (c16.rs `INNER_RESP_HEADERS`) -/
+def innerRespHeaders : List Pair :=
+  pairsOf [("content-type", "application/grpc"), ("x-inner", "a"), ("content-type", "dup"), ("x-inner", "b")]
+
+/-- headers the `req` cases send next to the content type (c16.rs `REQ_EXTRA`) -/
+def reqExtra : List Pair :=
+  pairsOf [("content-length", "123"), ("te", "gzip"), ("accept-encoding", "br"), ("x-user", "a"), ("x-user", "b")]
+
+/-! ### comparison of model and observation where the property does not fix frame boundaries
+
+The response side and the text-mode request side promise bytes, not the places where the
+output is cut into frames (`C16_response_lossless`, `C16_request_text_lossless` conclude about
+the concatenation).  There the model and the observation are compared in a canonical form —
+concatenated data (text mode: after the independent base64 reader), the non-data frames in
+order, the terminal frame — and when they agree in that form the driver answers with the
+observed tokens themselves.  Binary-mode requests (`C16_request_binary_lossless`: chunk for
+chunk) are compared exactly.  The spec verdict always sees the exact observation. -/
+
+def isDataOut : Out → Bool
+  | .data _ => true
+  | _ => false
+
+inductive Cmp where
+  | exact
+  /-- concatenated data (decoded when `text`), other frames in order -/
+  | bytes (text : Bool)
+  /-- as `bytes false`, and a run that ends in an error is only compared as "ends in an error"
+  (how much was handed on before a malformed text body was found out is not fixed either) -/
+  | bytesCleanOnly
+  deriving DecidableEq
+
+def canonEq (c : Cmp) (m o : List Out) : Bool :=
+  match c with
+  | .exact => m == o
+  | .bytes text =>
+    let dm := if text then Spec.GrpcWeb.b64StreamDecode (dataOf m) else some (dataOf m)
+    let d := if text then Spec.GrpcWeb.b64StreamDecode (dataOf o) else some (dataOf o)
+    dm.isSome && dm == d && m.filter (!isDataOut ·) == o.filter (!isDataOut ·)
+  | .bytesCleanOnly =>
+    if m.getLast? == some .err then o.getLast? == some .err
+    else dataOf m == dataOf o && m.filter (!isDataOut ·) == o.filter (!isDataOut ·)
+
+/-- identity on a body: what `untouched` means for the frames of a passed-through body -/
+def idOuts : List BodyEv → List Out
+  | [] => [.eos]
+  | .data b :: r => .data b :: idOuts r
+  | .trailers h :: r => .trailers (TMap.group h) :: idOuts r
+  | .err :: _ => [.err]
+  | .pending :: r => idOuts r
+
+def CT : Bytes := str "content-type"
+
+/-- every name outside `touched` has the same values, in the same order, in both maps -/
+def othersKept (touched : List Bytes) (before after : List Pair) : Bool :=
+  (before ++ after).all (fun p => touched.contains p.1 || TMap.getAll p.1 before == TMap.getAll p.1 after)
+
+def reqTouched : List Bytes := [CT, str "te", str "content-length", str "accept-encoding"]
+
+/-- the translated request's headers as the property (and gRPC) want them -/
+def reqHeaderClauses (before after : List Pair) : List (String × Bool) :=
+  [("grpc-content-type", TMap.getAll CT after == [Spec.GrpcWeb.grpcContentType]),
+   ("te-trailers", TMap.getAll (str "te") after == [str "trailers"]),
+   ("content-length-removed", TMap.getAll (str "content-length") after == []),
+   ("user-headers-kept", othersKept reqTouched before after)]
+
+def respHeaderClauses (text : Bool) (before after : List Pair) : List (String × Bool) :=
+  [("response-content-type", TMap.getAll CT after == [Spec.GrpcWeb.responseContentType text]),
+   ("response-headers-kept", othersKept [CT] before after)]
+
+def encOfText (t : Bool) : Cmp := if t then .bytesCleanOnly else .exact
+
 def handle (case obs : List String) : String × String :=
   match case with
   | "resp" :: acc :: evToks =>
     match optHex acc, parseEvs evToks with
     | some accept, some evs =>
-      let model := match classify (str "POST") false (some GRPC_WEB) accept with
-        | .web _ a => join ("200" :: hex (toContentType a) :: renderOuts (respRun a evs))
-        | .status c => s!"{c} skipped"
-        | .pass => "pass"
-      let text := (accept.bind Spec.GrpcWeb.webContentType) == some true
-      let v := match obs with
-        | st :: ct :: frames =>
-          match parseOuts frames with
-          | some o =>
-            firstFail [verdict [("status-200", st == "200"),
-                                ("content-type", ct == hex (Spec.GrpcWeb.responseContentType text))],
-                       respVerdict text evs o]
-          | none => "fail:unreadable-observation"
-        | _ => "fail:unreadable-observation"
+      let hs : List Pair := (CT, GRPC_WEB) :: (match accept with | some a => [(ACCEPT, a)] | none => [])
+      let p : Parts := { method := str "POST", version := .h11, uri := str "/", headers := hs, ext := false }
+      let r := respond p [] 200 innerRespHeaders evs
+      let head := toString r.status :: "h" :: renderHeaders r.headers
+      let text := match Spec.GrpcWeb.expectFor p.method false hs with
+        | .web _ t => t
+        | _ => false
+      -- observed: `<status> h <n> (name value)* <frames>`
+      let parsed : Option (String × List Pair × List Out) := match obs with
+        | st :: "h" :: r => do
+          let (h, fr) ← parseHeaders r
+          let o ← parseOuts fr
+          some (st, h, o)
+        | _ => none
+      let model := match parsed with
+        | some (st, h, o) =>
+          if st :: "h" :: renderHeaders h == head && canonEq (.bytes text) r.body o then join obs
+          else join (head ++ renderOuts r.body)
+        | none => join (head ++ renderOuts r.body)
+      let v := match parsed with
+        | some (st, h, o) =>
+          firstFail [verdict ([("status-200", st == "200")] ++ respHeaderClauses text innerRespHeaders h),
+                     respVerdict text evs o]
+        | none => "fail:unreadable-observation"
       (model, v)
     | _, _ => bad
   | "req" :: ct :: evToks =>
     match optHex ct, parseEvs evToks with
     | some ct, some evs =>
-      let model := match classify (str "POST") false ct none with
-        | .web e _ =>
-          join (["200", "ct", hex GRPC_CONTENT_TYPE, "te", hex (str "trailers"), "ae",
-                 hex (str "identity,deflate,gzip"), "cl", "0", "xu", "2", hex (str "a"), hex (str "b"), "|"]
-                ++ renderOuts (reqRun e evs))
-        | .status c => s!"{c} skipped"
-        | .pass => "pass"
-      let v := match ct.bind Spec.GrpcWeb.webContentType with
-        | none => verdict [("not-grpc-web-400", obs == ["400", "skipped"])]
-        | some text =>
-          match obs with
-          | st :: "ct" :: c :: "te" :: te :: "ae" :: _ :: "cl" :: cl :: "xu" :: "2" :: u1 :: u2 :: "|" :: frames =>
-            match parseOuts frames with
-            | some o =>
-              firstFail [verdict [("status-200", st == "200"),
-                                  ("grpc-content-type", c == hex Spec.GrpcWeb.grpcContentType),
-                                  ("te-trailers", te == hex (str "trailers")),
-                                  ("content-length-removed", cl == "0"),
-                                  ("user-headers-kept", u1 == hex (str "a") && u2 == hex (str "b"))],
-                         reqVerdict text evs o]
-            | none => "fail:unreadable-observation"
-          | _ => "fail:unreadable-observation"
+      let hs : List Pair := reqExtra ++ (match ct with | some c => [(CT, c)] | none => [])
+      let p : Parts := { method := str "POST", version := .h11, uri := str "/", headers := hs, ext := false }
+      -- observed: `<status> h <n> (name value)* | <frames>` or `<status> skipped`
+      let parsed : Option (String × List Pair × List Out) := match obs with
+        | st :: "h" :: r => do
+          let (h, fr) ← parseHeaders r
+          match fr with
+          | "|" :: fr => (parseOuts fr).map (fun o => (st, h, o))
+          | _ => none
+        | _ => none
+      let model := match serve p evs with
+        | .inner p' body _ =>
+          let head := "200" :: "h" :: renderHeaders p'.headers
+          let textReq := match actionOf p with
+            | .web .base64 _ => true
+            | _ => false
+          match parsed with
+          | some (st, h, o) =>
+            if st :: "h" :: renderHeaders h == head && canonEq (encOfText textReq) body o then join obs
+            else join (head ++ ["|"] ++ renderOuts body)
+          | none => join (head ++ ["|"] ++ renderOuts body)
+        | .immediate c => s!"{c} skipped"
+      let v := match Spec.GrpcWeb.expectFor p.method false hs with
+        | .status c => verdict [("not-grpc-web-400", obs == [toString c, "skipped"])]
+        | .pass => "fail:unexpected-pass"
+        | .web text _ =>
+          match parsed with
+          | some (st, h, o) =>
+            firstFail [verdict ([("status-200", st == "200")] ++ reqHeaderClauses hs h), reqVerdict text evs o]
+          | none => "fail:unreadable-observation"
       (model, v)
     | _, _ => bad
-  | ["kind", m, ver, ct, acc] =>
-    match unhex m, optHex ct, optHex acc with
-    | some method, some ct, some accept =>
-      let isH2 := ver == "h2"
-      let passLine := join (["200", "called", "same", tokOpt ct] ++ renderOuts [.data (str "AAAA"), .eos]
-            ++ ["|", hex (str "application/grpc")]
-            ++ renderOuts [.data [0, 0, 0, 0, 1, 7], .trailers [(str "grpc-status", str "0")], .eos])
-      let model := match classify method isH2 ct accept with
-        | .web e a =>
-          join (["200", "called", "same", hex GRPC_CONTENT_TYPE] ++ renderOuts (reqRun e kindReq)
-                ++ ["|", hex (toContentType a)] ++ renderOuts (respRun a kindResp))
-        | .status c => s!"{c} skipped eos"
-        | .pass => passLine
-      let v := match Spec.GrpcWeb.expect method isH2 ct accept with
-        | .status c => verdict [("immediate-status", obs == [toString c, "skipped", "eos"])]
-        | .pass => verdict [("passed-through-untouched", join obs == passLine)]
-        | .web rt pt =>
-          match obs with
-          | st :: called :: _ :: c :: rest =>
-            let reqFrames := rest.takeWhile (· != "|")
-            let after := (rest.dropWhile (· != "|")).drop 1
-            match parseOuts reqFrames, after with
-            | some ro, rct :: respFrames =>
-              match parseOuts respFrames with
-              | some po =>
-                firstFail [verdict [("status-200", st == "200"), ("inner-called", called == "called"),
-                                    ("grpc-content-type", c == hex Spec.GrpcWeb.grpcContentType),
-                                    ("response-content-type", rct == hex (Spec.GrpcWeb.responseContentType pt))],
-                           reqVerdict rt kindReq ro, respVerdict pt kindResp po]
-              | none => "fail:unreadable-observation"
-            | _, _ => "fail:unreadable-observation"
-          | _ => "fail:translated-request-expected"
-      (model, v)
-    | _, _, _ => bad
+  | "call" :: m :: ver :: uri :: ext :: n :: rest =>
+    match unhex m, parseVer ver, unhex uri, nat? n with
+    | some method, some version, some uri, some n =>
+      match parsePairs n rest with
+      | some (hs, evToks) =>
+        match parseEvs evToks, ext == "0" || ext == "1" with
+        | some evs, true =>
+          let p : Parts := { method := method, version := version, uri := uri, headers := hs, ext := ext == "1" }
+          let r := respond p evs 200 innerRespHeaders kindResp
+          let respHead := "rh" :: renderHeaders r.headers
+          let partsToks (q : Parts) : List String :=
+            [hex q.method, verTok q.version, hex q.uri, if q.ext then "1" else "0", "h"] ++ renderHeaders q.headers
+          -- observed: `<st> skipped rh <hdrs> <frames>` |
+          --           `<st> called <m> <ver> <uri> <ext> h <hdrs> b <frames> | rh <hdrs> <frames>`
+          let parsedCalled : Option (String × Parts × List Out × List Pair × List Out) := match obs with
+            | st :: "called" :: m' :: v' :: u' :: e' :: "h" :: r => do
+              let m' ← unhex m'
+              let v' ← parseVer v'
+              let u' ← unhex u'
+              let (h, r) ← parseHeaders r
+              match r with
+              | "b" :: r =>
+                let reqFrames := r.takeWhile (· != "|")
+                match (r.dropWhile (· != "|")).drop 1 with
+                | "rh" :: r2 => do
+                  let ro ← parseOuts reqFrames
+                  let (rh, fr) ← parseHeaders r2
+                  let po ← parseOuts fr
+                  some (st, ({ method := m', version := v', uri := u', headers := h, ext := e' == "1" } : Parts), ro, rh, po)
+                | _ => none
+              | _ => none
+            | _ => none
+          let model := match serve p evs with
+            | .immediate c => join ([toString c, "skipped"] ++ respHead ++ renderOuts r.body)
+            | .inner p' body acc =>
+              let exactLine := join (["200", "called"] ++ partsToks p' ++ ["b"] ++ renderOuts body ++ ["|"] ++ respHead ++ renderOuts r.body)
+              match acc, parsedCalled with
+              | some a, some (st, q, ro, rh, po) =>
+                let textReq := match actionOf p with
+                  | .web .base64 _ => true
+                  | _ => false
+                if st == "200" && partsToks q == partsToks p' && canonEq (encOfText textReq) body ro
+                   && renderHeaders rh == renderHeaders r.headers && canonEq (.bytes (a == Enc.base64)) r.body po
+                then join obs else exactLine
+              | _, _ => exactLine
+          let isH2 := version == Ver.h2
+          let v := match Spec.GrpcWeb.expectFor method isH2 hs with
+            | .status c =>
+              verdict [("immediate-status-inner-not-called", obs == [toString c, "skipped", "rh", "0", "eos"])]
+            | .pass =>
+              -- untouched: the very same method, version, uri, extensions, header entries and body
+              -- frames reach the inner service, and its response comes back as it is
+              let want := join (["200", "called", hex method, verTok version, hex uri, ext, "h"] ++ renderHeaders hs
+                ++ ["b"] ++ renderOuts (idOuts evs) ++ ["|", "rh"] ++ renderHeaders innerRespHeaders
+                ++ renderOuts (idOuts kindResp))
+              verdict [("passed-through-untouched", join obs == want)]
+            | .web rt pt =>
+              match parsedCalled with
+              | some (st, q, ro, rh, po) =>
+                firstFail [verdict ([("status-200", st == "200"),
+                                     ("method-version-uri-extensions-kept",
+                                        q.method == method && q.version == version && q.uri == uri && q.ext == (ext == "1"))]
+                                    ++ reqHeaderClauses hs q.headers ++ respHeaderClauses pt innerRespHeaders rh),
+                           reqVerdict rt evs ro, respVerdict pt kindResp po]
+              | none => "fail:translated-request-expected"
+          (model, v)
+        | _, _ => bad
+      | none => bad
+    | _, _, _, _ => bad
   | _ => bad
 
 end DriverC16
